@@ -388,6 +388,7 @@ class PA:
         self.kind = kind
         self.ext = tuple(ext) if ext is not None else (None,) * data.ndim
         self.ecap = ecap              # static upper bound of the (non-negative) integer entries, where known
+        self.sizes = False            # entries were assigned from sizes (SInt): scalar reads give an SInt again
 
     # -- shape
     @property
@@ -442,7 +443,7 @@ class PA:
         return self._scalar(self.data.reshape(-1)[0])
 
     def _scalar(self, v):
-        if self.kind == 'i' and not num(v):
+        if self.kind == 'i' and (not num(v) or self.sizes):
             if self.ecap is None:
                 raise Unsupported('integer entry without a known bound read as a scalar')
             return SInt(v, self.ecap)
@@ -546,6 +547,7 @@ class PA:
             if isinstance(value, SInt):
                 if self.kind == 'i':
                     self.ecap = None if self.ecap is None else max(self.ecap, value.cap)
+                    self.sizes = True
                 value = value.z
             elif self.kind == 'i' and isinstance(value, (int, onp.integer)) and self.ecap is not None:
                 self.ecap = max(self.ecap, int(value)) if value >= 0 else None
@@ -1215,3 +1217,218 @@ def make_harness(cfg, parts, mod_cache=None):
         for p in parts:
             PARTS[p](G, cfg, orc, dm, ex)
     return fn
+
+
+# ------------------------------------------------------------------------------------------ solver portfolio
+# the COO queries are purely propositional (one-hot integers): z3's AIG + SAT pipeline decides them 2-3x faster than the SMT
+# core (tri2 x 3 fields: 36 s against > 120 s). Registered as an extra solver kind of vf.sym in this worker process only.
+_mk_solver_orig = sym._mk_solver
+
+
+def _mk_solver(kind, ctx=None):
+    if kind == 'sat':
+        return z3.Then(z3.Tactic('simplify', ctx=ctx), z3.Tactic('aig', ctx=ctx), z3.Tactic('sat', ctx=ctx)).solver()
+    return _mk_solver_orig(kind, ctx)
+
+
+sym._mk_solver = _mk_solver
+
+
+# ------------------------------------------------------------------------------------------ O0: the model against numpy
+def to_numpy(x):
+    """a result of the model run on CONCRETE flags (entries are python values) -> numpy array trimmed to its extent"""
+    if isinstance(x, SInt):
+        return int(x.z)
+    if isinstance(x, PA):
+        if x.ndim == 1:
+            return onp.array(list(x.data[:int(x.length())]), dtype=x.dtype)
+        x._need_dense('to_numpy')
+        return onp.array(x.data.tolist(), dtype=x.dtype)
+    return x
+
+
+ATTRS = ('isBc', 'isUnknown', 'ids', 'unknownIndices', 'bcIndices', 'dofToUnknown', 'HessRowCoords', 'HessColCoords', 'hessian_bc_mask')
+
+
+def observe(cfg, dm, model):
+    """every attribute and method result the goals speak about, as plain numpy values"""
+    import jax.numpy as jnp
+    conv = to_numpy if model else (lambda a: onp.asarray(a) if not isinstance(a, int) else a)
+    out = {a: conv(getattr(dm, a)) for a in ATTRS}
+    out['fieldShape'] = tuple(dm.fieldShape)
+    out['bc_size'], out['unknown_size'] = conv(dm.get_bc_size()), conv(dm.get_unknown_size())
+    uvals = [0.5 + 1.25 * i for i in range(cfg.ndof)]
+    U = dense_pa(uvals, 'f', (cfg.nN, cfg.dim)) if model else jnp.array(uvals).reshape(cfg.nN, cfg.dim)
+    Uu, Ub = dm.get_unknown_values(U), dm.get_bc_values(U)
+    out['unknown_values'], out['bc_values'] = conv(Uu), conv(Ub)
+    out['create_field'] = conv(dm.create_field(Uu, Ub))
+    out['create_field_default'] = conv(dm.create_field(Uu))
+    wvals = [-3.0 + 0.75 * i for i in range(cfg.ndof)]
+    nu = int(out['unknown_size'])
+    W = padded_pa(wvals, nu, 'f') if model else jnp.array(wvals[:nu])
+    out['create_field_from_vector'] = conv(dm.create_field(W, 7.0))
+    for k in range(cfg.dim):
+        out['slice_%d' % k] = conv(dm.slice_unknowns_with_dof_indices(W, (slice(None), k)))
+    return out
+
+
+def masks_of(cfg, index):
+    """membership flags of configuration number `index`: the independent sets A_c spell the bits of `index` (so every mask of
+    the mesh occurs), the extra sets vary with it"""
+    member = {}
+    for c in range(cfg.dim):
+        member['A%d' % c] = [bool((index >> (n * cfg.dim + c)) & 1) for n in range(cfg.nN)]
+    if 'X' in cfg.sets:
+        x = (index * 2654435761 + 12345) >> 3
+        member['X'] = [bool((x >> n) & 1) for n in range(cfg.nN)]
+    return member
+
+
+def validate_model(h, cfg, indices, tag):
+    mod = load_function_space_module()
+    bad, n = [], 0
+    for index in indices:
+        member = masks_of(cfg, index)
+        n += 1
+        try:
+            dm_m, _ = build_dof_manager(cfg, member, True, mod=mod)
+            om = observe(cfg, dm_m, True)
+        except (IndexError, ValueError) as e:
+            om = {'raised': type(e).__name__}
+        try:
+            dm_r, _ = build_dof_manager(cfg, member, False)
+            orr = observe(cfg, dm_r, False)
+        except (IndexError, ValueError, TypeError) as e:
+            orr = {'raised': type(e).__name__}
+        diff = [k for k in set(om) | set(orr) if k not in om or k not in orr or not _same_value(om[k], orr[k])]
+        if diff:
+            bad.append((index, diff[:4]))
+    h.fact('padded_array_model_agrees_with_numpy[%s%s]' % (cfg.name, tag), not bad,
+           detail='%d BC configurations (every mask of the %d dofs) compared on %d attributes / method results; mismatches: %s' % (n, cfg.ndof, len(ATTRS) + 9 + cfg.dim, bad[:3]))
+
+
+def _same_value(a, b):
+    if isinstance(a, (int, str, tuple)) or isinstance(b, (int, str, tuple)):
+        return type(a) is type(b) and a == b
+    a, b = onp.asarray(a), onp.asarray(b)
+    return a.shape == b.shape and a.dtype.kind == b.dtype.kind and bool(onp.array_equal(a, b))
+
+
+# ------------------------------------------------------------------------------------------ obligations
+def _meta(h, cs, what):
+    from ..core import REPO
+    from optimism import FunctionSpace
+    src = open(os.path.join(REPO, REL)).read()
+    D = FunctionSpace.DofManager
+    h.encoded('optimism/FunctionSpace.py executed as source on padded arrays (file sha1=%s)' % hashlib.sha1(src.encode()).hexdigest()[:12],
+              D.__init__, D.get_bc_size, D.get_unknown_size, D.create_field, D.get_bc_values, D.get_unknown_values,
+              D.slice_unknowns_with_dof_indices, D._make_hessian_coordinates, D._make_hessian_bc_mask)
+    h.bounds(*(['bounded meshes (all masks, i.e. every assignment of the node-set membership flags, are covered by each query):'] + [c.describe() for c in cs]))
+    h.bounds(what)
+    h.assume_note('stub: in the namespace of the executed FunctionSpace.py source the names `onp` (numpy) and `np` (jax.numpy) are bound to the padded-array '
+                  'shims ONP / JNP of vf.props.c14 (full, zeros, ones, arange, array, sum, square, tile; boolean-mask and index-array indexing, masked / '
+                  'scattered / sliced assignment, reshape, ravel, .T, .at[mask].set); the model is validated against the real DofManager on every '
+                  'concrete mask of the bounded meshes (O0) and every solver model is replayed on the real class with real numpy / jax',
+                  'every condition under which numpy / jax would raise (length agreement of masked, scattered and sliced assignments, index bounds) is '
+                  'itself a goal (numpy_operations_defined); out-of-range gathers count as errors although jax would clamp them',
+                  'symbolic integers are one-hot over their finite value sets (exact, no overflow); field values are reals (pure data movement: '
+                  'no arithmetic is performed on them)',
+                  'functionSpace is represented by its mesh (DofManager reads functionSpace.mesh.coords.shape, .nodeSets, .conns only); node sets are '
+                  'index arrays arange(nNodes)[membership flags] of symbolic length')
+    h.outside('meshes beyond the bound; element orders > 1 (the code is order-agnostic, not proved); node sets with repeated or unordered entries '
+              'inside one set (covered only through overlapping / re-used / repeated sets); dofIndexSlice arguments other than (all nodes, component)')
+
+
+def _run(h, cfg, parts, cap, order=('core',)):
+    goals = {'partition': GOALS_PARTITION, 'sizes': GOALS_SIZES, 'roundtrip': GOALS_ROUNDTRIP, 'slice': GOALS_SLICE, 'coo': GOALS_COO}
+    px.run_px(h, cfg.name, make_harness(cfg, parts), cap=cap, order=order, expect_goals=[g for p in parts for g in goals[p]])
+
+
+GOALS_PARTITION = ['isBc_is_the_union_of_the_essential_bc_sets', 'unknown_indices_increasing', 'bc_indices_increasing', 'indices_are_dof_ids',
+                   'unknown_and_bc_indices_disjoint', 'union_of_unknown_and_bc_indices_is_all_dofs', 'bc_indices_are_exactly_the_dofs_named_by_an_essential_bc',
+                   'unknown_index_p_is_the_pth_unconstrained_dof', 'bc_index_p_is_the_pth_constrained_dof', 'dofToUnknown_is_the_rank_among_unknowns_or_minus_one',
+                   'ids_is_node_times_fields_plus_component']
+GOALS_SIZES = ['bc_size_is_the_number_of_constrained_dofs', 'unknown_size_is_the_number_of_unconstrained_dofs', 'sizes_add_up_to_all_dofs',
+               'sizes_are_the_lengths_of_the_index_arrays']
+GOALS_ROUNDTRIP = ['unknown_values_are_the_unconstrained_entries_in_dof_order', 'bc_values_are_the_constrained_entries_in_dof_order',
+                   'split_then_recombine_returns_the_field', 'recombine_then_split_returns_the_unknown_values', 'recombine_then_split_returns_the_bc_values',
+                   'created_field_holds_unknown_p_at_the_pth_unconstrained_dof', 'created_field_default_bc_value_is_zero']
+GOALS_SLICE = ['component_slice_is_the_unconstrained_entries_of_the_component_in_node_order']
+GOALS_COO = ['hessian_bc_mask_marks_the_unknown_by_unknown_entries', 'coo_lengths_equal_the_number_of_masked_entries', 'coo_coordinates_are_unknown_ids',
+             'coo_pairs_of_an_element_are_pairs_of_its_unknowns', 'coo_pairs_cover_every_unknown_by_unknown_entry_of_each_element',
+             'coo_pairs_address_no_entry_of_an_element_twice', 'coo_pair_t_belongs_to_masked_entry_t_up_to_one_global_transposition']
+
+
+@obligation(P, 'O0.padded_array_model_agrees_with_numpy', cap=600)
+def o0(h):
+    """translator validation (ground facts, not the check): on EVERY concrete mask of the bounded meshes the padded-array model
+    of the executed source gives the same attributes and method results as the real DofManager on real numpy / jax arrays"""
+    cs = [c for c in cfgs(False)]
+    _meta(h, cs, 'O0: all 2^ndof masks of each mesh with <= 8 dofs; thorough: also all 512 masks of tri1 x 3 fields and 1024 masks of tri2 x 3 fields (every fourth)')
+    if h.replay is not None:
+        return
+    for c in cs:
+        validate_model(h, c, range(2 ** c.ndof), '')
+    if h.thorough():
+        c = Cfg('tri1_f3', *TRI1, 3)
+        validate_model(h, c, range(2 ** c.ndof), '')
+        c = Cfg('tri2_f3', *TRI2, 3)
+        validate_model(h, c, range(0, 2 ** c.ndof, 4), '/every 4th')
+
+
+@obligation(P, 'O1.indices_partition_all_dofs', cap=300)
+def o1(h):
+    """unknownIndices and bcIndices are increasing, disjoint, within range, their union is all dofs; they are exactly the dofs
+    (not) named by an essential BC, in order; isBc is the union of the BC sets; dofToUnknown is the rank among unknowns or -1
+    — for ALL node-set membership flags (empty, full, overlapping, re-used and repeated sets)"""
+    cs = cfgs(h.thorough())
+    _meta(h, cs, 'O1: every assignment of the membership flags of every node set')
+    for c in cs:
+        _run(h, c, ['partition'], cap=60)
+
+
+@obligation(P, 'O2.sizes_are_popcounts', cap=300)
+def o2(h):
+    """get_bc_size / get_unknown_size equal the number of constrained / unconstrained dofs, add up to all dofs and are the
+    lengths of the index arrays, for all masks"""
+    cs = cfgs(h.thorough())
+    _meta(h, cs, 'O2: every assignment of the membership flags')
+    for c in cs:
+        _run(h, c, ['sizes'], cap=60)
+
+
+@obligation(P, 'O3.split_recombine_round_trip', cap=300)
+def o3(h):
+    """create_field(get_unknown_values(U), get_bc_values(U)) == U, and get_*_values(create_field(Wu, Wb)) == (Wu, Wb) for
+    vectors of the right lengths; the split keeps dof order; the default bc value is 0 — all masks, symbolic field values"""
+    cs = cfgs(h.thorough())
+    _meta(h, cs, 'O3: field values U (nNodes x nFields), unknown vector Wu (length = number of unknowns), bc vector Wb (length = number of constrained dofs): free reals')
+    for c in cs:
+        _run(h, c, ['roundtrip'], cap=60)
+
+
+@obligation(P, 'O4.component_slice', cap=300)
+def o4(h):
+    """slice_unknowns_with_dof_indices(Wu, (slice(None), k)) is the vector of the unconstrained entries of component k in node
+    order, for every component k, all masks, symbolic unknown vector"""
+    cs = cfgs(h.thorough())
+    _meta(h, cs, 'O4: every component k of every configuration; Wu free reals')
+    for c in cs:
+        _run(h, c, ['slice'], cap=60)
+
+
+def _register_coo():
+    for c in cfgs(True):
+        three = c.dim == 3
+        heavy = three and c.nEl == 2
+
+        def ob(h, c=c, heavy=heavy):
+            _meta(h, [c], 'O5: the C-order stream of kValues[hessian_bc_mask] against HessRowCoords / HessColCoords; oracle from conns and the BC list by plain loops')
+            _run(h, c, ['coo'], cap=900 if heavy else 120, order=('sat', 'core'))
+        ob.__doc__ = ('COO maps: hessian_bc_mask marks exactly the unknown x unknown entries of each element block; HessRowCoords / HessColCoords have one '
+                      'entry per masked entry, are unknown ids, and each element\'s segment addresses exactly the pairs of that element\'s unknowns, every '
+                      'pair once; entry t pairs with masked entry t up to one global transposition — all masks')
+        obligation(P, 'O5.coo_maps[%s]' % c.name, tiers=('thorough',) if three else ('quick', 'thorough'), cap=3000 if heavy else 400)(ob)
+
+
+_register_coo()
